@@ -793,7 +793,7 @@ def a_product_comp(xs, ys, f):
 def b_product_comp(xs, ys, f):
     return [f(x, y) for x in xs for y in ys]
 
-def _vp_merge(defaults, extra):
+def _vp_merge(defaults: dict, extra):
     merged = dict(defaults)
     merged.update(extra)
     return merged
